@@ -108,6 +108,20 @@ void conc_static_case(Ctx &c) {
         // small-size layouts (select directories with explicitly stored "long" blocks, multi-word rank tables)
         keys = gen_irregular_keys<K>(c.rng, 220000 + c.rng.below(c.thorough() ? 500000 : 150000));
         fam = "irregular_big";
+        if constexpr (sizeof(K) == 8 && std::is_unsigned_v<K>) {
+            if (c.rng.chance(1, 2)) {
+                // ... as one dense burst inside a sparse universe: about 10^6 keys between two far outliers, so that more
+                // than 10^5 segment keys share one Elias-Fano bucket (select directories with full "long" blocks)
+                keys = gen_irregular_keys<K>(c.rng, 800000 + c.rng.below(c.thorough() ? 600000 : 200000));
+                K top = keys.back();
+                if (top < (K(1) << 49)) {
+                    for (auto &x : keys) x += K(1) << 50;
+                    keys.front() = 5;
+                    keys.push_back(K(1) << 62);
+                    fam = "irregular_big_burst_between_outliers";
+                }
+            }
+        }
     } else
         keys = gen_keys<K>(c.rng, Idx::epsilon_value, c.thorough() ? 60000 : 8000, fam);
     if constexpr (std::is_floating_point_v<K>) {
